@@ -1,6 +1,6 @@
 #!/bin/bash
 # runs every thorough check in sequence; prints one summary line per property
-for id in C02 C08 C12 C13 C14 C15 C11 C18 C19 C20 C16 C17 C05 C10 C07 C09 C03 C01 C06 C04; do
+for id in ${SWEEP_IDS:-C04 C01 C06 C10 C17 C20 C13 C16 C02 C14 C11 C12 C05 C07 C09 C03 C08 C15 C18 C19}; do
   start=$(date +%s)
   python3 verif.py check $id thorough > thorough_$id.log 2>&1
   rc=$?
